@@ -185,6 +185,9 @@ def rules(ctx: Ctx) -> None:
         ctx.touched(f)
         rng = [k for k in prog.walk_fn(f) if isinstance(k, ast.Call) and isinstance(k.func, ast.Name) and k.func.id == "range" and len(k.args) == 3]
         back_rngs = [k for k in rng if prog.try_fold(k.args[2], f.mod, f) == -1]
+        # reversed(range(n)) is the same backward scan
+        back_rngs += [k for k in prog.walk_fn(f) if isinstance(k, ast.Call) and isinstance(k.func, ast.Name) and k.func.id == "range" and len(k.args) in (1, 2)
+                      and isinstance(prog.parent(k), ast.Call) and isinstance(prog.parent(k).func, ast.Name) and prog.parent(k).func.id == "reversed"]
         # the first hit of the backward scan is taken: a loop that breaks, or next() over a generator
         first_hit = any(isinstance(k, ast.Break) for k in prog.walk_fn(f)) or any(
             isinstance(a, ast.Call) and isinstance(a.func, ast.Name) and a.func.id == "next" for k in back_rngs for a in prog.ancestors(k))
